@@ -15,7 +15,7 @@ sys.path.insert(0, os.path.dirname(os.path.abspath(__file__)))
 import vlib
 from vlib import MachineryFailure, BuildError, log
 
-EXACT_SOURCES = ["vh_main.cpp", "vh_support.cpp", "vh_spline.cpp", "vh_gen.cpp"]
+EXACT_SOURCES = ["vh_main.cpp", "vh_support.cpp", "vh_spline.cpp", "vh_gen.cpp", "vh_interp.cpp"]
 
 # ------------------------------------------------------------------ stateless families
 # family -> (MC spec, base cfg)
@@ -24,19 +24,21 @@ FAMILIES = {
     "Spl": ("MC_Spl", "MC_Spl.cfg"),
     "Ops": ("MC_Ops", "MC_Ops.cfg"),
     "Gen": ("MC_Gen", "MC_Gen.cfg"),
+    "Interp": ("MC_Interp", "MC_Interp.cfg"),
 }
 OPS_SOURCES = EXACT_SOURCES + ["vh_ops.cpp"]
 
 
-def build_family(family, variant, cases_path):
+def build_family(family, variant, cases_path, subset_lines=None):
     """The exact-scalar harness for a family.  Operator expressions are C++
     template instantiations: for the Ops family the generated translation
     units (one struct per AST TLC enumerated) are part of the build."""
     if family != "Ops":
         return vlib.build(variant, EXACT_SOURCES)
     import gen_expr
-    all_lines = open(cases_path).read().splitlines()
-    gdir = os.path.join(vlib.CACHE, "gen_src", vlib.sha(vlib.tree_hash([cases_path]), "v1"))
+    all_lines = subset_lines if subset_lines is not None else open(cases_path).read().splitlines()
+    gdir = os.path.join(vlib.CACHE, "gen_src", vlib.sha(vlib.tree_hash([cases_path]), "v1",
+                                                        vlib.sha("\n".join(sorted(subset_lines))) if subset_lines is not None else "all"))
     marker = os.path.join(gdir, "done")
     if not os.path.exists(marker):
         files, na, nb = gen_expr.gen(all_lines, gdir, 32)
@@ -53,6 +55,8 @@ def nontrivial(c):
     def iv(s):
         return isinstance(s, dict) and s.get("e", 0) - s.get("s", 0) >= 2
 
+    if op == "Interp":
+        return c["x"]["e"] - c["x"]["s"] >= 3
     if op == "Gen":
         return len(c["knots"]) > c["p"] + 1
     if op == "OpApply":
@@ -76,7 +80,7 @@ def case_key(c):
     def w(s):
         return (s.get("s"), s.get("e"), s.get("o"), len(s.get("g", []))) if isinstance(s, dict) else None
     return json.dumps([c.get("op"), w(c.get("a")), w(c.get("b")), w(c.get("c")), c.get("share"), c.get("top"), c.get("i"),
-                       c.get("ast"), c.get("e1"), c.get("e2"), c.get("knots"), c.get("p"), c.get("route"), c.get("grid") if c.get("op") == "Gen" else None, [w(f) for f in c.get("fs", [])] if isinstance(c.get("fs"), list) else None])
+                       c.get("order"), c.get("bcs"), c.get("dflt"), len(c.get("y", [])) if isinstance(c.get("y"), list) else None, c.get("x") if c.get("op") == "Interp" else None, c.get("ast"), c.get("e1"), c.get("e2"), c.get("knots"), c.get("p"), c.get("route"), c.get("grid") if c.get("op") == "Gen" else None, [w(f) for f in c.get("fs", [])] if isinstance(c.get("fs"), list) else None])
 
 
 class Ctx:
@@ -97,7 +101,7 @@ class Ctx:
         return c
 
 
-def stateless(ctx, family, ops, variant="exact", prop_view=None, consts=None, case_filter=None):
+def stateless(ctx, family, ops, variant="exact", prop_view=None, consts=None, case_filter=None, build_subset=False):
     """Gen -> Exec -> Validate for one stateless family, restricted to `ops`."""
     mc, cfg = FAMILIES[family]
     cases_path, st = vlib.gen(mc, cfg, ctx.consts(consts), ctx.tier)
@@ -112,8 +116,8 @@ def stateless(ctx, family, ops, variant="exact", prop_view=None, consts=None, ca
             lines.append(l)
     if not lines:
         raise MachineryFailure("no cases generated for %s/%s" % (family, sorted(ops)))
-    binp = build_family(family, variant, cases_path)
-    run_and_judge(ctx, family, binp, lines, prop_view or ctx.prop)
+    binp = build_family(family, variant, cases_path, lines if build_subset else None)
+    run_and_judge(ctx, family + ("-" + variant if variant != "exact" else ""), binp, lines, prop_view or ctx.prop)
 
 
 def run_and_judge(ctx, family, binp, lines, view, confirm=True):
@@ -200,11 +204,11 @@ def gen_histories(ctx, mode, num, depth):
     return outp, st
 
 
-def lifecycle(ctx, view, variants=("exact", "exact_checks"), bfs=True):
+def lifecycle(ctx, view, variants=("exact", "exact_checks"), bfs=True, nsim=None):
     import concurrent.futures as cf
     import subprocess
     quick = ctx.tier == "quick"
-    sets = [gen_histories(ctx, "sim", 320 if quick else 5000, 12 if quick else 20)]
+    sets = [gen_histories(ctx, "sim", nsim or (320 if quick else 5000), 12 if quick else 20)]
     if bfs:
         sets.append(gen_histories(ctx, "bfs", 0, 2))
     all_hists = []
@@ -298,6 +302,28 @@ def lifecycle(ctx, view, variants=("exact", "exact_checks"), bfs=True):
         ctx.cov["samples"].append({"history": hists[len(hists) // 2]})
 
 
+def c09(ctx):
+    """Replay of the TLC-generated cases of every family in the sanitizer build
+    (ASan + UBSan + libstdc++ assertions): an observer report is an event no
+    specification action explains.  The checked accessors' contract (throw for
+    every index outside the view, incl. 2^64-k) is validated by TLC."""
+    import zlib
+    quick = ctx.tier == "quick"
+    pick = (lambda c, m: zlib.crc32(json.dumps(c, sort_keys=True).encode()) % m == 0) if quick else (lambda c, m: True)
+    stateless(ctx, "Sup", {"SupRead", "SupIdx", "SupBin", "SupTri", "SupNew", "GridAt", "GridFind", "GridNew"}, variant="san")
+    stateless(ctx, "Spl", {"SplNew", "SplEval", "SplUn", "SplBin", "SplLin"}, variant="san", case_filter=lambda c: pick(c, 3))
+    stateless(ctx, "Gen", {"Gen"}, variant="san", case_filter=lambda c: pick(c, 3))
+    stateless(ctx, "Interp", {"Interp"}, variant="san")
+    # operator expressions: every placement of a spline factor relative to the operand, forms, primitives
+    def opsel(c):
+        if c["op"] == "OpApply":
+            return (len(c["fs"]) > 0 and (not quick or c["ast"]["k"] in ("Spl", "Prod", "Sum", "ScalL"))) or (c["tag"] == "prim" and pick(c, 4)) or (not quick)
+        return c["tag"] == "foreign" or len(c["fs"]) > 0 or pick(c, 16)
+    stateless(ctx, "Ops", {"OpApply", "OpBF"}, variant="san", case_filter=opsel, build_subset=quick)
+    lifecycle(ctx, "C09", variants=("san",), bfs=not quick, nsim=200 if quick else None)
+    ctx.assumptions.append("absence of undefined behaviour is observed by ASan/UBSan/_GLIBCXX_ASSERTIONS on the enumerated executions only; the observers, not TLC, detect the event (DESIGN.md 2.6)")
+
+
 def c10(ctx):
     lifecycle(ctx, "C10")
     stateless(ctx, "Spl", {"SplUn", "SplBin", "SplLin", "SplNew"}, prop_view="C10")
@@ -319,6 +345,10 @@ def c08(ctx):
 
 
 # ------------------------------------------------------------------ properties
+def c12(ctx):
+    stateless(ctx, "Interp", {"Interp"})
+
+
 def c13(ctx):
     stateless(ctx, "Sup", {"SupRead", "SupIdx", "SupBin", "SupTri", "SupNew", "GridAt", "GridFind", "GridNew"})
 
@@ -327,6 +357,7 @@ def c11(ctx):
     stateless(ctx, "Sup", {"SupNew", "GridNew"})
     stateless(ctx, "Spl", {"SplNew", "SplLin"}, case_filter=lambda c: c["op"] == "SplNew" or len(c["cs"]) != len(c["ss"]) or len(c["ss"]) <= 1)
     stateless(ctx, "Gen", {"Gen"}, case_filter=lambda c: c["p"] <= 2)
+    stateless(ctx, "Interp", {"Interp"})
 
 
 def c03(ctx):
@@ -410,6 +441,7 @@ def c19(ctx):
 
 PROPS = {
     "C08": dict(fn=c08, level="model_checking"),
+    "C09": dict(fn=c09, level="model_checking"),
     "C10": dict(fn=c10, level="model_checking"),
     "C14": dict(fn=c14, level="model_checking"),
     "C19": dict(fn=c19, level="other"),
@@ -421,6 +453,7 @@ PROPS = {
     "C02": dict(fn=c02, level="model_checking"),
     "C03": dict(fn=c03, level="model_checking"),
     "C11": dict(fn=c11, level="model_checking"),
+    "C12": dict(fn=c12, level="model_checking"),
     "C13": dict(fn=c13, level="model_checking"),
     "C15": dict(fn=c15, level="model_checking"),
 }
